@@ -238,10 +238,46 @@ class Concurrent(Stream):
         return None
 
 
+class KeySweep(Stream):
+    """300 000 different keys used one after the other in one process under 128-NEA2 and 128-NIA2: every result must be what
+    AES-CTR / AES-CMAC (Go standard library, computed from that call's own key and parameters) gives — whatever keys were
+    used before (a cache of key schedules indexed by anything shorter than the key would show here)"""
+    name = "key-sweep"
+    sub = "manykeys"
+    harness_timeout = 1800
+    model_check = None
+    spec_check = None
+    requires = []
+    history_dependent = False
+
+    def generate(self, rng, tier):
+        # when a proof obligation broke (e.g. the AES functions started to keep state) the sweep is a hundred times longer
+        return [{"n": 30000000 if getattr(self, "search", False) else 300000 if tier == "quick" else 3000000, "seed": rng.below(1 << 30)}]
+
+    def classify(self, c, o):
+        return "all-equal" if o.get("first_bad") == -1 else "differs"
+
+    def key(self, c, o):
+        return "key-sweep"
+
+    def coq_case(self, c, o):
+        return ""
+
+    def direct_check(self, c, o):
+        if o.get("first_bad", 0) != -1:
+            return "after %s other keys were used in this process, %s under key %s (COUNT %s, BEARER %s, DIRECTION %s, message %s) gives %s; AES with that key gives %s" % (
+                o.get("first_bad"), o.get("what"), o.get("key"), o.get("count"), o.get("bearer"), o.get("dir"), o.get("msg"), o.get("got"), o.get("want"))
+        return None
+
+
 class C10(L.ShrinkMixin, Check):
     pid = "C10"
     prop_files = ["Properties/C10.v"]
-    streams = [DlHistories(), DlMalformed(), Concurrent()]
+    streams = [DlHistories(), DlMalformed(), Concurrent(), KeySweep()]
+
+    def regen(self, harness):
+        from .C20 import C20
+        return C20.regen(self, harness)         # Gen/Footprints.v (go/ssa): c10_aes_algorithms_keep_no_package_state
     trusted = ["Coq 8.16.1 kernel incl. vm_compute (no native_compute)", "no axioms (Print Assumptions: closed under the global context)",
                "hand-written models Model/Count.v, Model/NasSec.v (transcriptions of counter.go, tglib/security.go NASDecode, decode.go GetNasPdu's "
                "use of GetSecurityHeaderType) tied by the history streams dl-histories / dl-malformed: octets and both counters after every op",
